@@ -165,6 +165,9 @@ func (sc *c13Scenario) evaluate(sch *crypto.Scheme, pub kyber.Point, engine chai
 	sc.dirEventStates(all)
 
 	// restarts
+	if sc.p.Restarts < 0 {
+		return
+	}
 	sel := sc.selectRestarts(evs)
 	for _, ev := range sel {
 		sc.restart(ev)
@@ -298,16 +301,7 @@ func (sc *c13Scenario) selectRestarts(evs []*c13Evaluated) []*c13Evaluated {
 	}
 	sort.Strings(labels)
 	for _, l := range labels {
-		ev := lastOf[l]
-		need := false
-		for _, h := range ev.covers {
-			if !covered[h] {
-				need = true
-			}
-		}
-		if need {
-			pick(ev)
-		}
+		pick(lastOf[l])
 	}
 	hooks := map[string]bool{}
 	for _, ev := range evs {
